@@ -58,14 +58,14 @@ def filtersOk (e : Entity) : Bool :=
   | some q => q.filters.all fun f => e.statuses.contains f
 
 def stateObject (e : Entity) : ObjDecl :=
-  .mk (toCamel (e.name ++ b!"State"))
+  .mk (componentName e b!"State")
     [ .mk b!"metadata" true false (refField b!"j5.state.v1" b!"StateMetadata"),
       .mk b!"keys" true false (.objectRef [] (componentName e b!"Keys") true []),
       .mk b!"data" true false (innerRef e b!"Data"),
       .mk b!"status" true false (.enumRef [] (componentName e b!"Status") [] true) ]
     [] (some ⟨snakeName e, .state⟩)
 
-def eventTypeName (e : Entity) : Str := toCamel (e.name ++ b!"EventType")
+def eventTypeName (e : Entity) : Str := componentName e b!"EventType"
 
 def eventOneof (e : Entity) : ObjDecl :=
   .mk (eventTypeName e)
@@ -75,7 +75,7 @@ def eventOneof (e : Entity) : ObjDecl :=
     (e.events.map Nested.object) none
 
 def eventObject (e : Entity) : ObjDecl :=
-  .mk (toCamel (e.name ++ b!"Event"))
+  .mk (componentName e b!"Event")
     [ .mk b!"metadata" true false (refField b!"j5.state.v1" b!"EventMetadata"),
       .mk b!"keys" true false (.objectRef [] (componentName e b!"Keys") true []),
       .mk b!"event" true false (.oneofRef [] (componentName e b!"EventType") [] true) ]
@@ -113,7 +113,7 @@ def eventsArray (e : Entity) : Property :=
 
 def getMethod (e : Entity) : Method :=
   let n := snakeName e
-  { name := toCamel n ++ b!"Get", verb := .get, path := joinWith b!"/" (colonPath (getKeys e)),
+  { name := toCamel e.name ++ b!"Get", verb := .get, path := joinWith b!"/" (colonPath (getKeys e)),
     request := some (getKeys e),
     response := some ([.mk (toLowerCamel n) true false (innerRef e b!"State")] ++
       (match e.query with
@@ -123,21 +123,20 @@ def getMethod (e : Entity) : Method :=
 
 def listMethod (e : Entity) : Method :=
   let n := snakeName e
-  { name := toCamel n ++ b!"List", verb := .get, path := joinWith b!"/" (colonPath (listKeys e)),
+  { name := toCamel e.name ++ b!"List", verb := .get, path := joinWith b!"/" (colonPath (listKeys e)),
     request := some (listKeys e ++ [pageReq, queryReq]),
     response := some [.mk (toLowerCamel n) true false (.array (innerRef e b!"State") []), pageRes],
     mopt := .list }
 
 def eventsMethod (e : Entity) : Method :=
-  let n := snakeName e
-  { name := toCamel n ++ b!"Events", verb := .get,
+  { name := toCamel e.name ++ b!"Events", verb := .get,
     path := joinWith b!"/" (colonPath (getKeys e) ++ [b!"events"]),
     request := some (getKeys e ++ [pageReq, queryReq]),
     response := some [eventsArray e, pageRes],
     mopt := .events }
 
 def queryService (pkg : Str) (e : Entity) : Service :=
-  { name := some (toCamel (snakeName e) ++ b!"Query"),
+  { name := some (toCamel e.name ++ b!"Query"),
     basePath := some (b!"/" ++ baseUrlPath pkg e ++ b!"/q"),
     methods := [getMethod e, listMethod e, eventsMethod e],
     sopt := .query (snakeName e) }
